@@ -12,3 +12,4 @@ CONSTANTS
   MaxNow = 0
   Now0 = 0
   KeepRunning = FALSE
+  DurabilityByOpener = FALSE
